@@ -64,10 +64,12 @@ def sh(cmd, cwd=None, timeout=3600, env=None, input=None):
 
 def regen(fam=None):
     """translator: regenerate coq/Generated (and the family's Generated) from /repo's working tree"""
-    rc, out = sh([sys.executable, os.path.join(ROOT, "tools", "extract.py"), "--repo", REPO, "--family", "main"])
-    if rc == 0 and fam is not None and fam.name != "main":
-        rc, out2 = sh([sys.executable, os.path.join(ROOT, "tools", "extract.py"), "--repo", REPO, "--family", fam.name])
-        out += out2
+    # one writer at a time (the tables are shared files of the Coq projects; the translators write only on change)
+    with Lock("regen"):
+        rc, out = sh([sys.executable, os.path.join(ROOT, "tools", "extract.py"), "--repo", REPO, "--family", "main"])
+        if rc == 0 and fam is not None and fam.name != "main":
+            rc, out2 = sh([sys.executable, os.path.join(ROOT, "tools", "extract.py"), "--repo", REPO, "--family", fam.name])
+            out += out2
     return rc == 0, out
 
 
@@ -143,6 +145,54 @@ def coqchk(fam, prop, timeout=1500):
     return ok, "axioms: %s; type-in-type: %s; unsafe fixpoints: %s; assumed positivity: %s" % tuple(parts)
 
 
+def gate_source(src):
+    """the gate copy of a property file announces every theorem by name (`Check T.`) right before its Print Assumptions, so
+    that the answer is attributed to that theorem and not merely counted"""
+    return re.sub(r"^Print Assumptions\s+(\w+)\s*\.", lambda m: "Check %s.\nPrint Assumptions %s." % (m.group(1), m.group(1)), src, flags=re.M)
+
+
+def gate_verdict(src, thms, out, fam, res):
+    """reads coqc's output for the gate copy: axioms, forbidden vernacular, and per theorem a closed Print Assumptions answer"""
+    axioms = []
+    for blk in re.findall(r"Axioms:\n((?:.+\n?)+?)(?:\n|\Z)", out):
+        for ln in blk.splitlines():
+            mm = re.match(r"^(\S+)\s*:", ln)
+            if mm:
+                axioms.append(mm.group(1))
+    res["axioms"] = sorted(set(axioms))
+    bad_ax = [a for a in res["axioms"] if a not in AXIOM_ALLOW]
+    printed = re.findall(r"^Print Assumptions\s+(\w+)\s*\.", src, flags=re.M)
+    forb = grep_forbidden(fam)
+    if bad_ax:
+        res["failed"] = "axioms not in allowlist: " + ", ".join(bad_ax)
+    elif forb:
+        res["failed"] = "forbidden vernacular: " + "; ".join(forb[:5])
+    elif [t for t in thms if t not in printed]:
+        res["failed"] = "a theorem without Print Assumptions: " + ", ".join([t for t in thms if t not in printed][:6])
+    else:
+        pos, marks = 0, []
+        for t in printed:
+            mm = re.compile(r"^%s\b" % re.escape(t), flags=re.M).search(out, pos)
+            marks.append((t, mm.start() if mm else None))
+            if mm:
+                pos = mm.end()
+        done = []
+        for i, (t, st) in enumerate(marks):
+            if st is None:
+                continue
+            en = next((e for _, e in marks[i + 1:] if e is not None), len(out))
+            seg = out[st:en]
+            if "Closed under the global context" in seg or "Axioms:" in seg:      # listed axioms were checked against the allowlist above
+                done.append(t)
+        missing = [t for t in thms if t not in done]
+        res["discharged"] = len(thms) - len(missing)
+        if missing:
+            res["failed"] = "no Print Assumptions answer for: " + ", ".join(missing[:6])
+        else:
+            res["ok"] = True
+    return res
+
+
 def proof_gate(prop, fam=None):
     """Builds Properties/<prop>.vo (and its dependencies) from the regenerated tables, re-runs
     coqc on the property file to capture Print Assumptions, checks axioms and forbidden words.
@@ -166,7 +216,7 @@ def proof_gate(prop, fam=None):
     gdir = os.path.join(CACHE, "gate")
     os.makedirs(gdir, exist_ok=True)
     gfile = os.path.join(gdir, prop + ".v")
-    open(gfile, "w").write(src)
+    open(gfile, "w").write(gate_source(src))
     qargs = ["-Q", COQ, "PV"]
     if fam.name != "main":
         qargs += ["-Q", fam.coq, "PV" + fam.name.capitalize()]
@@ -177,29 +227,7 @@ def proof_gate(prop, fam=None):
         res["failed"] = "Properties/%s.v" % prop
         res["error"] = out[-600:]
         return res
-    closed = out.count("Closed under the global context")
-    axioms = []
-    for blk in re.findall(r"Axioms:\n((?:.+\n?)+?)(?:\n|\Z)", out):
-        for ln in blk.splitlines():
-            mm = re.match(r"^(\S+)\s*:", ln)
-            if mm:
-                axioms.append(mm.group(1))
-    res["axioms"] = sorted(set(axioms))
-    bad_ax = [a for a in res["axioms"] if a not in AXIOM_ALLOW]
-    n_print = len(re.findall(r"^Print Assumptions", src, flags=re.M))
-    forb = grep_forbidden(fam)
-    if bad_ax:
-        res["failed"] = "axioms not in allowlist: " + ", ".join(bad_ax)
-    elif forb:
-        res["failed"] = "forbidden vernacular: " + "; ".join(forb[:5])
-    elif n_print < len(thms):
-        res["failed"] = "a theorem without Print Assumptions"
-    elif closed + len(re.findall(r"Axioms:", out)) < n_print:
-        res["failed"] = "missing Print Assumptions output"
-    else:
-        res["ok"] = True
-        res["discharged"] = len(thms)
-    return res
+    return gate_verdict(src, thms, out, fam, res)
 
 
 def build_runner(fam=None):
@@ -453,6 +481,13 @@ class Check:
                     self.violation("coqchk does not accept %s/Properties/%s.vo: %s" % (fam.name, prop, txt[:300]),
                                    dict(kind="proof", checker="coqchk -o", family=fam.name, theorem_file="Properties/%s.v" % prop, output=txt), no_input=True)
             self.cov["coqchk"] = res
+        if not self.assumptions:
+            # what the verdict of this run rests on besides the Coq kernel: the trusted base as recorded for this check, plus
+            # the standing assumptions of the whole development (DESIGN.md section 7)
+            self.assumptions = list(self.cov.get("trusted_base") or []) + [
+                "the hand-written Coq models describe the Rust code only as far as the correspondence run of this check compared them (inputs: coverage.distribution / samples)",
+                "open known findings listed under coverage.known_findings_reproduced are excluded from the theorems by decidable classes and reported as KNOWN-FINDING, not as violations",
+            ]
         ev = dict(property_id=self.prop, tier=self.tier, seed=self.seed, level=self.level,
                   coverage=self.cov, assumptions=self.assumptions, wall_s=round(time.time() - self.t0, 2),
                   violations=len(self.violations))
